@@ -356,19 +356,22 @@ def judge_plan(ctx, case, plan):
         ok_all &= ctx.check("reported_concentrations_equal_those_implied_by_instructions", not bad,
                             lambda: det({"offending (row,column,reported,exact)": bad[:5], "x": x.tolist()}))
         allx = [M.x[c][r] for c in range(C) for r in range(R)]
-        ok_all &= ctx.check("xmin_xmax_are_extremes_of_x",
-                            _rel_eq(getattr(plan, "xmin", None), min(allx)) and _rel_eq(getattr(plan, "xmax", None), max(allx)),
-                            lambda: det({"xmin": enc(getattr(plan, "xmin", None)), "xmax": enc(getattr(plan, "xmax", None)),
-                                         "exact_min": float(min(allx)), "exact_max": float(max(allx))}))
+        # xmin / xmax / max_steps / the formula behind v_diluent are not part of the statement: observed only
+        if _rel_eq(getattr(plan, "xmin", None), min(allx)) and _rel_eq(getattr(plan, "xmax", None), max(allx)):
+            ctx.count("observed:xmin_xmax_are_extremes_of_x")
+        else:
+            ctx.count("observed:xmin_xmax_differ_from_extremes_of_x")
     vs = M.v_stock()
     ok_all &= ctx.check("v_stock_is_sum_of_stock_transfers", _rel_eq(getattr(plan, "v_stock", None), vs),
                         lambda: det({"v_stock": enc(getattr(plan, "v_stock", None)), "exact": float(vs)}))
     vd = R * sum((fr(v) for v in vmax), Fraction(0)) - vs
-    ok_all &= ctx.check("v_diluent_is_total_volume_minus_v_stock", near(_f(getattr(plan, "v_diluent", None)), vd),
-                        lambda: det({"v_diluent": enc(getattr(plan, "v_diluent", None)), "exact": float(vd)}))
+    try:
+        ctx.count("observed:v_diluent_is_total_volume_minus_v_stock" if near(_f(getattr(plan, "v_diluent", None)), vd)
+                  else "observed:v_diluent_other_formula")
+    except Exception:
+        ctx.count("observed:v_diluent_unreadable")
     ms = max(M.steps.values())
-    ok_all &= ctx.check("max_steps_is_deepest_dilution", getattr(plan, "max_steps", None) == ms,
-                        lambda: det({"max_steps": enc(getattr(plan, "max_steps", None)), "exact": ms}))
+    ctx.count("observed:max_steps_is_deepest_dilution" if getattr(plan, "max_steps", None) == ms else "observed:max_steps_differs")
     # (3) the volume budget of every source column (known defect D11: the planner never looks at it)
     over = M.overdrawn()
     ctx.check("plan_draws_at_most_what_source_column_holds", not over,
@@ -684,8 +687,8 @@ def gates(stats, tier):
         "rule:instructions_well_formed_and_sources_prepared_earlier", "rule:returned_plan_prepares_every_column_once",
         "rule:transfer_volumes_are_whole_microlitres", "rule:transfer_volume_at_least_min_transfer",
         "rule:transfer_volume_at_most_vmax_of_target", "rule:plan_draws_at_most_what_source_column_holds",
-        "rule:x_has_shape_R_by_C", "rule:reported_concentrations_equal_those_implied_by_instructions", "rule:xmin_xmax_are_extremes_of_x",
-        "rule:v_stock_is_sum_of_stock_transfers", "rule:v_diluent_is_total_volume_minus_v_stock", "rule:max_steps_is_deepest_dilution",
+        "rule:x_has_shape_R_by_C", "rule:reported_concentrations_equal_those_implied_by_instructions", 
+        "rule:v_stock_is_sum_of_stock_transfers", 
         "rule:refusal_is_a_ValueError", "rule:unmeetable_request_is_refused",
         "rule:execution_of_returned_plan_completes", "rule:tracked_concentration_equals_reported_in_every_dilution_well",
         "rule:tracked_concentration_equals_plan_x", "rule:tracked_concentration_equals_reported_in_destination_plate",
